@@ -44,7 +44,7 @@ SPECS = ['a:1', 'a:1', 'a', 'x:1', 'a:1', 'a:2', 'b:1', 'x:1', 'y:1', 'r:1', 'a'
 @st.composite
 def _cases(draw):
     u = draw(gen.universes(attachments=True, relations=True, max_entries=2, max_synsets=2,
-                           ext_new_forms=True))
+                           ext_new_forms=True, max_forms=1))
     docs = u['lexicons']
     n = len(docs)
     # files: every lexicon alone, plus one file with all of them in order
@@ -142,6 +142,8 @@ def _classify(case):
                 tags.add(f'was-removed:{g}')
     nt = removed_structural_at is not None and removed_structural_at < len(case['ops']) - 1
     tags = {t for t in tags if not t.startswith('was-removed:')}
+    if 'extension-new-form' in gen.resource_tags({'lmf_version': '1.1', 'lexicons': docs}):
+        tags.add('extension-adds-form-to-base-entry')
     return nt, sorted(tags)
 
 
@@ -308,5 +310,6 @@ SUBS = [
         budget={'quick': 80, 'thorough': 400}, sample=_sample,
         fingerprint=lambda c: fingerprint([c['universe'], c['files'], c['ops']]),
         require_tags=('removed-lexicon-with-extension', 'star-removal', 're-add', 'op:reopen',
-                      'op:add_ili', 'op:add_mem', 'op:add_bad')),
+                      'op:add_ili', 'op:add_mem', 'op:add_bad',
+                      'extension-adds-form-to-base-entry')),
 ]
